@@ -245,6 +245,18 @@ def body_large(ctx, conv):
         # whole-degree coordinates stored in integer types, odd spacings (cell edges are half-way values)
         nj, ni = 3, 4
         ds = builders.cf1d(nj, ni, lat=numpy.array([-2, -1, 2], dtype='int32'), lon=numpy.array([150, 151, 154, 155], dtype='int64'))
+    elif conv == 'cf2d-bowtie0':
+        # the only cell without a valid outline is the very first one (corners listed crosswise)
+        nj, ni = 2, 3
+        jj, ii = numpy.meshgrid(numpy.arange(nj, dtype=float), numpy.arange(ni, dtype=float), indexing='ij')
+        lat, lon = 10.0 + jj, 100.0 + ii
+        lonb = numpy.stack([lon - .5, lon + .5, lon + .5, lon - .5], axis=-1)
+        latb = numpy.stack([lat - .5, lat - .5, lat + .5, lat + .5], axis=-1)
+        lonb[0, 0] = lonb[0, 0][[0, 2, 1, 3]]
+        latb[0, 0] = latb[0, 0][[0, 2, 1, 3]]
+        ds = builders.cf2d(nj, ni, lat=lat, lon=lon, lat_bounds=latb, lon_bounds=lonb)
+    elif conv == 'mesh-bowtie0':
+        ds = builders.ugrid(([(0, 0), (1, 0), (1, 1), (0, 1), (2, 0), (2, 1), (3, 0), (3, 1)], [[0, 2, 1, 3], [1, 4, 5, 2], [4, 6, 7, 5]]))
     elif conv == 'cf1d-huge':
         # more than 2**16 cells
         nj, ni = 260, 257
@@ -376,7 +388,7 @@ def cases(tier):
     yield Case('large:cf2d-holes:3x4', body_large, dict(conv='cf2d-holes'), patches=_large_patches(), max_paths=5)
     yield Case('large:cf1d-0-360:3x6', body_large, dict(conv='cf1d-0-360'), patches=_large_patches(), max_paths=5)
     yield Case('large:cf1d-int:3x4', body_large, dict(conv='cf1d-int'), patches=_large_patches(), max_paths=5)
-    for conv in ('mesh-nonagon', 'mesh-fan9', 'mesh-poly34567', 'cf1d-huge', 'cf2d-20k'):
+    for conv in ('cf2d-bowtie0', 'mesh-bowtie0', 'mesh-nonagon', 'mesh-fan9', 'mesh-poly34567', 'cf1d-huge', 'cf2d-20k'):
         yield Case(f'large:{conv}', body_large, dict(conv=conv), patches=_large_patches(), max_paths=5)
     for conv in ('shoc_standard', 'cf1d'):
         yield Case(f'large:{conv}:101x11', body_large, dict(conv=conv), patches=_large_patches(), max_paths=5)
